@@ -145,7 +145,7 @@ SPEC_MUTANTS = [
     ("bfield-fires-nothing", 'p \\in {"P_bfield", "P_edist", "P_xf", "P_parent"} -> {"plasma"}', 'p \\in {"P_edist", "P_xf", "P_parent"} -> {"plasma"}'),
     ("adata-not-reconfigured", 'p \\in {"P_adata", "P_geom", "P_geomT", "P_integ"} -> {"pconf"}', 'p \\in {"P_geom", "P_geomT", "P_integ"} -> {"pconf"}'),
     ("cxline-no-change", '[] p = "M_cxline" -> {"bmchange"}', '[] p = "M_cxline" -> {}'),
-    ("observe-fills-from-stale-projection", 'cache[c] = <<>> THEN <<Proj(c, cfg)>> ELSE cache[c]]', 'cache[c] = <<>> THEN <<Proj(c, AllOnes)>> ELSE cache[c]]'),
+    ("observe-fills-from-stale-projection", '/\\ ~filled[c] THEN Proj(c, cfg) ELSE at[c]]', '/\\ ~filled[c] THEN Proj(c, AllOnes) ELSE at[c]]'),
 ]
 
 
